@@ -70,7 +70,9 @@ def generator_classes():
     collect()
     need = ['federated', 'gov:consolidated', 'gov:treasury_cb', 'gov:gold', 'gov:gold_cb', 'hh:household', 'hh:expectations',
             'capitalists', 'bus:single', 'bus:multi', 'money', 'deposit', 'weights', 'two-households', 'cross-gift',
-            'cross-import', 'intra-import', 'intra-gift', 'initial-stocks', 'zones:1', 'zones:2', 'zones:3']
+            'cross-import', 'intra-import', 'intra-gift', 'initial-stocks', 'zones:1', 'zones:2', 'zones:3', 'bonds',
+            'probes', 'probe:loginfo', 'probe:other-model', 'probe:zone-sectors', 'external:end', 'user-exclusions',
+            'related-currency-codes']
     ok = True
     for k in need:
         share = counts.get(k, 0) / float(n[0])
